@@ -344,6 +344,13 @@ Definition get_message_code : list dstmt :=
 (* driver/netconf/rpc.go Driver.sendRPC (the polling goroutine as one effect) *)
 Definition send_rpc_code : list dstmt :=
   [DIf (DAtom "d.ForceSelfClosingTags") [] []; DCall "m.serialize(d.SelectedVersion, d.ForceSelfClosingTags, d.ExcludeHeader)"; DIf (DNot (DEq "err" "nil")) [DReturn "nil, err"] []; DAssign "r" "response.NewNetconfResponse( serialized.rawXML, serialized.framedXML, d.Transport.GetHost(), d.Transport.GetPort(), d.SelectedVersion, )"; DAssign "err" "d.Channel.WriteAndReturn(serialized.framedXML, false)"; DIf (DNot (DEq "err" "nil")) [DReturn "nil, err"] []; DIf (DEq "d.SelectedVersion" "V1Dot1") [DAssign "err" "d.Channel.WriteReturn()"; DIf (DNot (DEq "err" "nil")) [DReturn "nil, err"] []] []; DAssign "done" "make(chan []byte)"; DCall "context.WithCancel(context.Background()) -> ctx, cancel"; DCall "defer cancel()"; DCall "go func() { defer close(done) var data []byte for { if ctx.Err() != nil { return } data = d.getMessage(m.MessageID) if data != nil { break } time.Sleep(5 * time.Microsecond) } select { case done <- data: case <-ctx.Done(): } }()"; DAssign "timer" "time.NewTimer(d.Channel.GetTimeout(op.Timeout))"; DSwitch "select" [(["err = <-d.errs"], [DReturn "nil, err"]); (["<-timer.C"], [DReturn "nil, fmt.Errorf(""%w: channel timeout sending input to device"", util.ErrTimeoutError)"]); (["data := <-done"], [DCall "r.Record(data)"])]; DReturn "r, nil"].
+(* channel/write.go Channel.Write, WriteReturn, WriteAndReturn (the debug message is an effect here) *)
+Definition chan_write_code : list dstmt :=
+  [DAssign "lm" "string(b)"; DIf (DAtom "r") [DAssign "lm" "redacted"] []; DCall "c.l.Debugf(""channel write %#v"", lm)"; DReturn "c.t.Write(b)"].
+Definition chan_write_return_code : list dstmt :=
+  [DReturn "c.Write(c.ReturnChar, false)"].
+Definition chan_write_and_return_code : list dstmt :=
+  [DAssign "err" "c.Write(b, r)"; DIf (DNot (DEq "err" "nil")) [DReturn "err"] []; DReturn "c.WriteReturn()"].
 (* channel/read.go Channel.read (the read loop), Channel.Read, Channel.ReadAll *)
 Definition chan_read_loop_code : list dstmt :=
   [DCall "defer c.exitedOnce.Do(func() { close(c.exited) })"; DRange "_" "forever" [DIf (DAtom "ready <-c.done") [DReturn ""] []; DCall "c.t.Read()"; DIf (DNot (DEq "err" "nil")) [DIf (DAtom "ready <-c.done") [DReturn ""] []; DIf (DAtom "errors.Is(err, io.EOF)") [DReturn ""] []; DSwitch "select" [(["c.Errs <- err"], []); (["<-c.done"], [DReturn ""])]; DCall "time.Sleep(c.ReadDelay)"; DContinue] []; DIf (DEq "len(b)" "0") [DCall "time.Sleep(c.ReadDelay)"; DContinue] []; DAssign "b" "bytes.ReplaceAll(b, []byte(""\r""), []byte(""""))"; DIf (DAtom "bytes.Contains(b, []byte(""\x1b""))") [DAssign "b" "util.StripANSI(b)"] []; DCall "c.Q.Enqueue(b)"; DIf (DNot (DEq "c.ChannelLog" "nil")) [DCall "c.ChannelLog.Write(b)"; DIf (DNot (DEq "err" "nil")) [] []] []; DCall "time.Sleep(c.ReadDelay)"]].
